@@ -233,6 +233,40 @@ impl CelValue {
         CelValue::Map(map)
     }
 
+    /// Deepest nesting of lists and maps a value accumulated by `reduce` may reach.
+    /// Values are cloned, compared, printed and dropped recursively, so their nesting
+    /// has to stay bounded.
+    pub(crate) const MAX_NESTING: usize = 64;
+
+    /// True when lists / maps are nested more than `limit` levels deep in this value.
+    /// Descends at most `limit` levels itself.
+    pub(crate) fn nested_deeper_than(&self, limit: usize) -> bool {
+        let rest = match limit.checked_sub(1) {
+            Some(rest) => rest,
+            None => return matches!(self, CelValue::List(_) | CelValue::Map(_)),
+        };
+
+        match self {
+            CelValue::List(list) => {
+                for value in list.iter() {
+                    if value.nested_deeper_than(rest) {
+                        return true;
+                    }
+                }
+                false
+            }
+            CelValue::Map(map) => {
+                for value in map.values() {
+                    if value.nested_deeper_than(rest) {
+                        return true;
+                    }
+                }
+                false
+            }
+            _ => false,
+        }
+    }
+
     pub fn into_result(self) -> CelResult<CelValue> {
         match self {
             CelValue::Err(e) => Err(e),
